@@ -315,3 +315,103 @@ impl VTree {
         Snapshot::default()
     }
 }
+
+// ---------------------------------------------------------------------------------------------
+// Write-ahead log
+
+/// A log record as the monitor sees it.
+#[derive(Clone, Debug, PartialEq)]
+pub struct VRecord {
+    pub lsn: u64,
+    pub tid: u64,
+    pub prev_lsn: Option<u64>,
+    pub object_id: Option<u64>,
+    pub row_id: Option<u64>,
+    /// RecordType as its u8 discriminant
+    pub kind: u8,
+    pub undo: Vec<u8>,
+    pub redo: Vec<u8>,
+}
+
+pub struct VWal {
+    wal: crate::io::wal::WriteAheadLog,
+}
+
+fn kind_of(k: u8) -> crate::storage::wal::RecordType {
+    use crate::storage::wal::RecordType::*;
+    match k {
+        0x00 => Begin,
+        0x01 => Commit,
+        0x02 => Abort,
+        0x03 => End,
+        0x06 => Update,
+        0x07 => Delete,
+        0x08 => Insert,
+        0x09 => Create,
+        0x0A => Drop,
+        _ => Alter,
+    }
+}
+
+impl VWal {
+    pub fn create(path: impl AsRef<Path>) -> Result<VWal, String> {
+        use crate::io::disk::FileOperations;
+        crate::io::wal::WriteAheadLog::create(path).map(|wal| VWal { wal }).map_err(|e| e.to_string())
+    }
+
+    pub fn open(path: impl AsRef<Path>) -> Result<VWal, String> {
+        use crate::io::disk::FileOperations;
+        crate::io::wal::WriteAheadLog::open(path).map(|wal| VWal { wal }).map_err(|e| e.to_string())
+    }
+
+    pub fn max_record_size(&self) -> usize {
+        self.wal.max_record_size()
+    }
+
+    pub fn push(&mut self, r: &VRecord) -> Result<(), String> {
+        let rec = crate::storage::wal::OwnedRecord::new(r.lsn, r.tid, r.prev_lsn, r.object_id, r.row_id, kind_of(r.kind), &r.undo, &r.redo);
+        self.wal.push(rec).map_err(|e| e.to_string())
+    }
+
+    pub fn flush(&mut self) -> Result<(), String> {
+        use std::io::Write;
+        self.wal.flush().map_err(|e| e.to_string())
+    }
+
+    pub fn truncate(&mut self) -> Result<(), String> {
+        use crate::io::disk::FileOperations;
+        self.wal.truncate().map_err(|e| e.to_string())
+    }
+
+    /// Everything the reader returns, with the given read-ahead (in blocks).
+    pub fn read_all(&mut self, read_ahead_blocks: usize) -> Result<Vec<VRecord>, String> {
+        let mut out = vec![];
+        let mut reader = self.wal.reader(read_ahead_blocks).map_err(|e| e.to_string())?;
+        while let Some(rec) = reader.next_ref().map_err(|e| e.to_string())? {
+            let m = rec.metadata();
+            out.push(VRecord {
+                lsn: rec.lsn(),
+                tid: rec.tid(),
+                prev_lsn: m.prev_lsn,
+                object_id: m.object_id,
+                row_id: m.row_id,
+                kind: rec.log_type() as u8,
+                undo: rec.undo_payload().to_vec(),
+                redo: rec.redo_payload().to_vec(),
+            });
+        }
+        Ok(out)
+    }
+
+    /// (total_entries, total_blocks, pending_blocks, block_size)
+    pub fn stats(&self) -> (u32, u64, usize, usize) {
+        let s = self.wal.stats();
+        (s.total_entries, s.total_blocks, s.pending_blocks, s.block_size)
+    }
+
+    /// Transaction ids that analysis would redo / undo.
+    pub fn analysis(&mut self) -> Result<(Vec<u64>, Vec<u64>), String> {
+        let a = self.wal.run_analysis().map_err(|e| e.to_string())?;
+        Ok((a.needs_redo.iter().cloned().collect(), a.needs_undo.iter().cloned().collect()))
+    }
+}
